@@ -150,7 +150,39 @@ def vardecl(stmt):
 def width_of(node):
     return ctype(node)[1]
 
+import re as _re
+_SIG = _re.compile(r'^bf_(set|ref)_([usf])(\d+)([nlb])$')
+
+def _plain(q):
+    return q.replace('const ', '').replace('volatile ', '').strip()
+
+def check_signature(fn):
+    """The translation works on mathematical integers, so the conversion of an argument to the declared parameter type (and of
+    the result to the declared return type) is invisible to it.  The specifications assume the container type that the function's
+    name prescribes (16 -> 16 bits, 24/32 -> 32, 40..64 -> 64; u/s; float/double): a declaration that differs breaks the tie."""
+    m = _SIG.match(fn.name)
+    if not m:
+        return
+    kind, cls, bits = m.group(1), m.group(2), int(m.group(3))
+    if kind == 'set':
+        t = fn.params[1].get('type', {}) if len(fn.params) == 2 else {}
+        cands = [_plain(t[k]) for k in ('qualType', 'desugaredQualType') if k in t]
+    else:
+        q = fn.node.get('type', {}).get('qualType', '')
+        cands = [_plain(q.split('(')[0])]
+    if cls == 'f':
+        want = 'float' if bits == 32 else 'double'
+        ok = want in cands
+        wtxt = want
+    else:
+        cont = 16 if bits <= 16 else 32 if bits <= 32 else 64
+        ok = any(c in TYPES and TYPES[c] == (cls == 's', cont) for c in cands)
+        wtxt = '%s%d-bit integer' % ('signed ' if cls == 's' else 'unsigned ', cont)
+    if not ok:
+        raise Untranslatable('%s: %s type is %s, the specification assumes a %s' % (fn.name, 'value parameter' if kind == 'set' else 'return', '/'.join(cands) or '?', wtxt))
+
 def translate(fn):
+    check_signature(fn)
     st = fn.stmts
     pnames = [p['name'] for p in fn.params]
     # --- shape A / I: pure integer functions of 'value'
